@@ -119,4 +119,10 @@ def specConv (T : PsV.CTable Rat) (dim : Nat) (ck : List Rat) (xs : List Rat) : 
     let ctil := PsV.tab d.naxes fun l => contract (fun p => T.coef.getD p 0) rows l 0
     conv1 (fun i => d.knots.getD i 0) d.nknots d.order d.naxes (PsV.rd ctil) (fun i => ck.getD i 0) (ck.length - 1) (xs.getD dim 0)
 
+/-- value of a table at `xs` through the shared Cox–de Boor specification:
+`Σ over all stored coefficients: coef · Π_d B_d(x_d)` (`Bsel`: the C01 convention) -/
+def evalTable (R : PsV.CTable Rat) (xs : List Rat) : Rat :=
+  contract (fun p => R.coef.getD p 0)
+    ((R.dims.zip xs).map fun (d, x) => (d.stride, some ((List.range d.naxes).map (PsV.Bsel (toDim d) x 0)))) 0 0
+
 end PsV.ConvSpec
